@@ -93,6 +93,10 @@ func (m *SubackMessage) Decode(src []byte) (int, error) {
 		return total, err
 	}
 
+	if len(src[total:]) < 2 || m.remlen < 2 {
+		return total, fmt.Errorf("suback/Decode: Insufficient buffer size. Expecting %d, got %d", 2, len(src[total:]))
+	}
+
 	//this.packetId = binary.BigEndian.Uint16(src[total:])
 	m.packetID = src[total : total+2]
 	total += 2
